@@ -25,10 +25,10 @@ MCNext ==
   \/ NextRtc(<<>>)
   \/ \E sg \in SeqSet(Sigs) : \E k \in {"post_fifo", "post_lifo", "defer"} : External(<<k, sg>>)
   \/ External(<<"recall">>)
-  \/ \E X \in 1..N : IsIn(X, <<>>) \/ ChildState(X, <<>>)
+  \/ \E X \in 0..N : IsIn(X, <<>>) \/ ChildState(X, <<>>)
 MCSpec == MCInit /\ [][MCNext]_vars
 Bound == TLCGet("level") <= Depth
 (* C22: queries change nothing but their result and the spy of the current step *)
-QueriesPure == [][(\E X \in 1..N : IsIn(X, <<>>) \/ ChildState(X, <<>>))
+QueriesPure == [][(\E X \in 0..N : IsIn(X, <<>>) \/ ChildState(X, <<>>))
                     => UNCHANGED <<chart, started, cur, q, dq, nid, full, trc, hist>>]_vars
 =============================================================================
